@@ -38,7 +38,7 @@ def s_det(draw):
             "r": draw(st.one_of(st.floats(0.05, 1.0), st.just(1.0), st.just(1))), "T": draw(st.one_of(st.floats(1, 400), st.just(300.0), st.just(300))),
             "R": draw(st.one_of(st.floats(1, 1e4), st.just(50), st.just(50.0))), "bw": draw(st.floats(0.011, 0.449)),
             "idark": draw(st.one_of(st.just(0.0), st.just(10e-9), st.floats(0, 1e-6))), "Fn": draw(st.one_of(st.just(0), st.floats(0, 10))),
-            "sel": draw(st.sampled_from(SELECTIONS)), "amp": 10 ** draw(st.floats(-3, 0)), "cw": draw(st.booleans()), "pn_rel": 10 ** draw(st.floats(-3, -0.5))}
+            "sel": draw(st.sampled_from(SELECTIONS)), "amp": 10 ** draw(st.one_of(st.floats(-3, 0), st.floats(-3, 0), st.floats(-10, -3))), "cw": draw(st.booleans()), "pn_rel": 10 ** draw(st.floats(-3, -0.5))}
 
 
 def e_det(c):
@@ -158,7 +158,9 @@ def e_det(c):
         scr = np.exp(1j * rs.uniform(0, 6, size=shape))
         ys = pd(optical_signal(E.copy(), nz * scr, n_pol=npol))
         if has_ase:
-            check(float(np.max(np.abs(ys.noise - y.noise))) > 1e-6 * R * r * amp ** 2 * np.sqrt(c["pn_rel"]), "ase-term-missing", sel)
+            bm = R * r * amp ** 2 * np.sqrt(c["pn_rel"])        # size of the beating term
+            if bm > 1e-8 * big:                                 # below that it cannot be told apart from rounding of the other terms
+                check(float(np.max(np.abs(ys.noise - y.noise))) > 1e-6 * bm, "ase-term-missing", sel)
             beat = R * r * (2 * (E * nz.conj()).real + np.abs(nz) ** 2)
             beat = beat if npol == 1 else beat.sum(axis=0)
             ya = pd(T=0, i_dark=0.0, include_noise="ase-only")
